@@ -192,6 +192,19 @@ def run(ctx):
                     i = int(d[0])
                     ctx.violation("history", f"call #{hi_ + 1} on one EAS object (same batch size, different decay altitudes) differs from a fresh object at event {i}: altDec={alt_h[i]!r} gives (PE {np.asarray(got[0])[i]!r}, cos {np.asarray(got[1])[i]!r}) instead of ({np.asarray(ref[0])[i]!r}, {np.asarray(ref[1])[i]!r})", {"call": hi_ + 1, "event": i})
                     break
+            # ---------------- whole-number emergence angles (an integer array of zeros): the results are those
+            #                  of the same numbers as floats
+            cfg_i = NssConfig()
+            bi_ = np.array([0, 0, 0, 1, 1])
+            ai_, ei_ = np.array([5.0, 10.0, 25.0, 8.0, -1.0]), np.ones(5)
+            try:
+                gi_ = [np.asarray(x, dtype=np.float64) for x in EAS(cfg_i)(bi_, ai_, ei_, np.zeros(5), np.zeros(5))]
+                gf_ = [np.asarray(x, dtype=np.float64) for x in EAS(cfg_i)(bi_.astype(np.float64), ai_, ei_, np.zeros(5), np.zeros(5))]
+                ctx.count("dtype", 5)
+                if not all(np.all(np.abs(a_ - b_) <= 1e-6 * np.abs(b_) + 1e-12) for a_, b_ in zip(gi_, gf_)):
+                    ctx.violation("pe", f"integer emergence angles {bi_.tolist()} give (numPEs, cos) = ({gi_[0].tolist()}, {gi_[1].tolist()}); the same numbers as floats give ({gf_[0].tolist()}, {gf_[1].tolist()})", {"dtype": "int64"})
+            except Exception as e:
+                ctx.exception("raises", "EAS.__call__ raised for an integer emergence-angle array", e, {"dtype": "int64"})
             # ---------------- configuration history: one configuration object scanned over area,
             #                  efficiency and threshold by attribute assignment and by model_copy, the
             #                  optical stage run after every edit (what a parameter scan in one session does)
@@ -269,7 +282,7 @@ def run(ctx):
     finally:
         CphotAng.__call__ = o_call
         CphotAng.run = o_run
-    for mname in ("config-history", "wiring", "pe", "range-cut", "eff-angle", "eff-angle-boundary", "inv-square", "history"):
+    for mname in ("dtype", "config-history", "wiring", "pe", "range-cut", "eff-angle", "eff-angle-boundary", "inv-square", "history"):
         ctx.require(mname)
     return ctx.finish(
         rule="batches through the real EAS.__call__ for detector altitudes {33, 525, 1000[, 100, 36000]} km (inverse-square clause also 21, 15, 5 km: detectors below some of the decays) x 3 (area, efficiency, threshold) settings: beta in [0, 42 deg], shower energies 1e-4..3e3 x 100 PeV, decay altitudes uniform in [0,20] km with 10 hostile values (-inf, -5, -1e-9, -5e-324, 0, 20, 20+ulp, 20+1e-9, 1e3, +inf) at random positions; thresholds placed so that PE/threshold is exactly 2 and one ulp either side; two-detector runs of the kernel for the inverse-square clause; a case is a distinct (detector, beta, altitude, energy)",
